@@ -36,7 +36,7 @@ def run(tier, seed):
         if rows > 140 or (quick and rows > 70 and len(scenarios) % 4):
             continue
         scenarios.append({"id": len(scenarios) + 1, "cfg": s["cfg"], "ops": s["ops"]})
-        if len(scenarios) >= (24 if quick else 150):
+        if len(scenarios) >= (14 if quick else 150):
             break
     pipe = vf.Pipeline(PROP, "c14", ("IOMon.tla", "IOMon.cfg"), heap="8g", per_class=3,
                        extra=["--density", "quick" if quick else "all"])
